@@ -94,7 +94,7 @@ def main():
         ],
         "checks": checks,
         "not_applicable": na,
-        "notes": "Checks import nutree from $VERIF_REPO (default /repo) on every run; nothing is installed or cached. Exit 0 = held on everything explored, 1 = VIOLATION (replayed natively), 3 = harness error. fix: commits in /repo are listed in known_findings.txt.",
+        "notes": "Checks import nutree from $VERIF_REPO (default /repo) on every run; nothing is installed or cached. Exit 0 = held on everything explored, 1 = VIOLATION (replayed natively), 3 = harness error. fix: commits in /repo and the two known findings are listed in known_findings.txt. Seeded changes from independent sub-agents are kept under seeded/ (tools/selftest.sh re-runs them against the checks; DESIGN.md section 13 has the table). Thorough tiers were each run end-to-end once (DESIGN.md 12.2a).",
     }
     with open(os.path.join(VERIF, "MANIFEST.json"), "w") as fp:
         json.dump(man, fp, indent=1)
